@@ -83,8 +83,30 @@ func LoadProgram(lc LoadConfig) (*Program, error) {
 	return p, nil
 }
 
+var fnNames sync.Map
+
+func (p *Program) fnName(fn *ssa.Function) string {
+	if n, ok := fnNames.Load(fn); ok {
+		return n.(string)
+	}
+	n := fn.String()
+	fnNames.Store(fn, n)
+	return n
+}
+
+var typeNames sync.Map
+
+func typeName(t types.Type) string {
+	if n, ok := typeNames.Load(t); ok {
+		return n.(string)
+	}
+	n := t.String()
+	typeNames.Store(t, n)
+	return n
+}
+
 func (p *Program) lookupMethod(t types.Type, meth *types.Func) *ssa.Function {
-	key := t.String() + "." + meth.Id()
+	key := typeName(t) + "." + meth.Id()
 	p.mu.Lock()
 	defer p.mu.Unlock()
 	if f, ok := p.methCache[key]; ok {
@@ -125,7 +147,7 @@ type HarnessCfg struct {
 }
 
 func defaultCfg(name string) *HarnessCfg {
-	return &HarnessCfg{Name: name, Unwind: 300, MaxConcretise: 64, MaxPermute: 4, MaxPaths: 200000,
+	return &HarnessCfg{Name: name, Unwind: 20000, MaxConcretise: 64, MaxPermute: 4, MaxPaths: 200000,
 		FeasTimeout: 3 * time.Second, AssertTimeout: 20 * time.Second, Workers: 16, Params: map[string]int{}}
 }
 
@@ -277,7 +299,7 @@ func (m *Machine) Close() {
 
 func (m *Machine) noteFunc(fn *ssa.Function) {
 	if m.funcs != nil {
-		m.funcs[fn.String()]++
+		m.funcs[m.prog.fnName(fn)]++
 	}
 }
 
